@@ -17,6 +17,7 @@
  * @license GPL v2+
  */
 #include "space.h"
+#include "verif_hooks.h"
 
 #include "add_space_table.h"
 #include "log_rules.h"
@@ -3697,6 +3698,7 @@ void space_text()
          LOG_FMT(LSPACE, "%s(%d): orig line is %zu, orig col is %zu, pc-Text() '%s', type is %s\n",
                  __func__, __LINE__, pc->GetOrigLine(), pc->GetOrigCol(), pc->Text(), get_token_name(pc->GetType()));
          iarf_e av = do_space_ensured(pc, next, min_sp);
+         VERIF_RECORD_SPACE(pc, next, av, min_sp);
          min_sp = max(1, min_sp);
 
          switch (av)
